@@ -515,3 +515,31 @@ Theorem C08_source_threads_required_fills_queue :
     G.execute_queue_limit runner_threads.
 Proof. exact gen_num_test_threads_fills_queue. Qed.
 Print Assumptions C08_source_threads_required_fills_queue.
+
+(* ---- exec_run's early return (C01; fifth round) *)
+
+(* C01 "the exit code reflects the outcome of the run": the only `return Ok(..)` of App::exec_run is the else block of
+   `let Some(runner_builder) = .. else { return Ok(0); }` (the translator checks that syntactically); the value that
+   `let` tests, regenerated from the source, is None iff --no-run was given -- for every combination of the other runner
+   options, --no-capture and the message format. The test list is not an input of the fragment: an empty list (or a
+   build without test binaries) does not short-circuit the run; it reaches the runner and the final match
+   (C01_source_exec_run_exit: NO_TESTS_RUN unless --no-tests says otherwise). Filtering the builder by the number of
+   listed binaries makes the fragment depend on the test list (not translated). *)
+Theorem C01_source_exec_run_early_return :
+  forall o nc f n,
+    match G.exec_run_early_return o nc f with None => true | Some _ => false end =
+    MER.returns_before_running (opts_to_model o) n.
+Proof. exact gen_exec_run_early_return_is_model. Qed.
+Print Assumptions C01_source_exec_run_early_return.
+
+(* the model's facts *)
+Theorem C01_empty_list_does_not_short_circuit :
+  forall o, MC.o_no_run o = false -> MER.returns_before_running o 0 = false.
+Proof. exact PER.empty_list_does_not_short_circuit. Qed.
+Print Assumptions C01_empty_list_does_not_short_circuit.
+
+Theorem C01_runner_built_iff_no_early_return :
+  forall o nc f pt pm ncpus n,
+    MC.runner_of o nc f pt pm ncpus = None <-> MER.returns_before_running o n = true.
+Proof. exact PER.runner_built_iff_no_early_return. Qed.
+Print Assumptions C01_runner_built_iff_no_early_return.
